@@ -759,6 +759,10 @@ def check_C05(ck):
         r = rng.random()
         replace_all = rng.random() < 0.25      # unload everything, load a disjoint small set
         size = rng.randint(1, 4) if replace_all else 0 if r < 0.03 else rng.randint(1, 12) if r < 0.5 else rng.randint(13, 80) if r < 0.9 else rng.randint(81, min(300, maxsize)) if r < 0.985 else rng.randint(min(300, maxsize), maxsize)
+        if pol == "backward" and size > 150:
+            # a failed search makes the deprecated handler abort; with the full budget the process dies without
+            # reporting the multipliers its model needs (the abort note is only kept for budgets <= 2000)
+            size = rng.randint(81, 150)
         pool = [x[0] for x in gen.make_ids(rng, size + 40, pol, fam)]
         live = {}
         ever = []
@@ -990,6 +994,8 @@ def check_C15(ck):
             static = None
             if kind in ("exact", "final"):
                 static = ghost if kind == "exact" else ids[rng.choice(desc[m["vp"][0]])][0]
+                if static == 0:
+                    continue        # "static 0" means no static class in the harness and in the model
                 lines.append("static %d" % static)
             lines += body + ["update"]
             ar = gen.arity(m["shape"])
@@ -1066,6 +1072,8 @@ def check_C09(ck):
         ids = gen.make_ids(rng, n_c, pol)
         desc = gen.descendants(reg.parents)
         static_c = rng.randrange(n_c)
+        if ids[static_c][0] == 0:
+            continue        # "static 0" means no static class
         lines = ["policy " + pol, "static %d" % ids[static_c][0]]
         lines += registry_lines(rng, reg, pol, ids, style=rng.choice(gen.STYLES))
         lines += ["update"]
